@@ -161,6 +161,7 @@ def check(ctx):
             if k not in cfgs or (ctx['tier'] == 'thorough' and C.rng.random() < 0.05):
                 cfgs[k if ctx['tier'] == 'quick' else (k, len(cfgs))] = dict(c, hook='observer', n_iter=max(2, c['n_iter']))
         n_hist = 0
+        prev_hist = None
         for k, c in cfgs.items():
             if ctx['tier'] == 'thorough' and n_hist >= 150:
                 break
@@ -172,6 +173,26 @@ def check(ctx):
             for key in ('agents', 'best_agent', 'local'):
                 if hasattr(h, key):
                     check_get(C, drv, L, h, key, f"{c['kind']}")
+            # the same instance after its records changed: one more dump, then every series again
+            if hasattr(h, 'agents') or hasattr(h, 'best_agent'):
+                sp_ = rec['space']
+                kw = {}
+                if hasattr(h, 'agents'):
+                    kw['agents'] = sp_.agents
+                kw['best_agent'] = sp_.best_agent
+                if hasattr(h, 'local') and len(h.local):
+                    kw['local'] = np.array(h.local[-1]) + 0.125
+                for a_ in sp_.agents:
+                    a_.position = a_.position + 0.0625
+                    a_.fit = float(a_.fit) + 1.0 if isinstance(a_.fit, (int, float)) else a_.fit
+                if isinstance(h.best_agent[-1][1], (int, float)):
+                    sp_.best_agent.fit = float(sp_.best_agent.fit) - 0.5
+                if 'best_tree' in vars(h):
+                    kw['best_tree'] = h.best_tree[-1]
+                h.dump(**kw)
+                for key in ('agents', 'best_agent', 'local'):
+                    if hasattr(h, key):
+                        check_get(C, drv, L, h, key, f"{c['kind']}-after-dump")
             # save / load
             path = os.path.join(scratch, f'h_{n_hist}.pkl')
             h.save(path)
@@ -190,6 +211,31 @@ def check(ctx):
             if sorted(o.split(',')) != sorted(a):
                 C.issue('load-mismatch', 'correspondence', rp, model=o, real=sorted(a))
             C.case(key=('saveload', c['kind'], c['store_best_only']), nontrivial=True, kind='saveload')
+            # bare file name (current directory) and loading into an instance that has answered get() before
+            cwd = os.getcwd()
+            os.chdir(scratch)
+            try:
+                try:
+                    h.save('bare_name.pkl')
+                    h3 = L['History']()
+                    h3.load('bare_name.pkl')
+                    os.remove('bare_name.pkl')
+                    if set(vars(h3)) != set(vars(h)) or any(not same_attr(vars(h)[kk], vars(h3)[kk]) for kk in vars(h)):
+                        C.issue('value-differs-after-load', 'oracle', dict(how='saveload-bare', cfg=c))
+                except Exception as ex:
+                    C.issue('save-load-raised', 'oracle', dict(how='saveload-bare', cfg=c), error=type(ex).__name__ + ': ' + str(ex)[:80])
+            finally:
+                os.chdir(cwd)
+            if prev_hist is not None and hasattr(prev_hist, 'best_agent'):
+                # `prev_hist` has answered get() already; load this run into it and ask again
+                p2 = os.path.join(scratch, 'reuse.pkl')
+                h.save(p2)
+                prev_hist.load(p2)
+                os.remove(p2)
+                for key in ('agents', 'best_agent', 'local'):
+                    if hasattr(h, key) and hasattr(prev_hist, key) and same_attr(getattr(prev_hist, key), getattr(h, key)):
+                        check_get(C, drv, L, prev_hist, key, f"{c['kind']}-reused-instance")
+            prev_hist = h
         C.extra['histories'] = n_hist
     finally:
         drv.close()
